@@ -47,7 +47,7 @@ class RecSource(ScheduleSource):
         n = self.calls
         self.calls += 1
         self.rec.add("poll", src=self.idx, n=n)
-        lat = self.spec.get("lat", 0)
+        lat = (self.spec.get("slow_calls") or {}).get(str(n), self.spec.get("lat", 0))
         if lat:
             await asyncio.sleep(lat)
         if n in self.spec.get("fail_calls", []):
@@ -235,6 +235,13 @@ def gen_c15_spec(rng: random.Random, minutes_max: int) -> Dict[str, Any]:
         spec["skip_first_run"] = rng.random() < 0.5
     if rng.random() < 0.3:
         spec["sleep_overshoot"] = rng.choice([0.01, 0.05, 0.2, 0.3])
+    if rng.random() < 0.2:
+        spec["task_start_lat"] = rng.choice([0.001, 0.05, 0.2])  # send tasks get to run that much after they were created
+    if rng.random() < 0.15:
+        # a listing that takes longer than a minute (a store that hangs): the next evaluation is more than a minute after
+        # the previous one
+        src_ = rng.choice(sources)
+        src_["slow_calls"] = {str(rng.randint(0, max(0, minutes - 2))): rng.choice([61.0, 75.5, 119.0, 130.0])}
     return spec
 
 
@@ -325,18 +332,40 @@ def run_c15(spec: Dict[str, Any]) -> "tuple[Rec, Dict[str, Any]]":
 
     S.set_host_tz(spec.get("host_tz"))  # the machine's local zone: the loop reads the naive local clock
     real_asyncio = run_mod.asyncio
-    if spec.get("sleep_overshoot"):
+    if spec.get("sleep_overshoot") or spec.get("task_start_lat"):
         # a real event loop wakes a sleeper a little late: the loop's own end-of-tick sleep returns `overshoot` seconds
-        # after the requested instant (the delayed sends are left exact, they have their own 1 s allowance)
-        over = float(spec["sleep_overshoot"])
+        # after the requested instant (the delayed sends are left exact, they have their own 1 s allowance); and a task
+        # it creates gets to run a little later (a busy loop) - `task_start_lat`
+        over = float(spec.get("sleep_overshoot") or 0.0)
+        start_lat = float(spec.get("task_start_lat") or 0.0)
+
+        class _LoopProxy:
+            def __init__(self, real: Any) -> None:
+                self._real = real
+
+            def __getattr__(self, name: str) -> Any:
+                return getattr(self._real, name)
+
+            def create_task(self, coro: Any, **kw: Any) -> Any:
+                async def _late() -> Any:
+                    await real_asyncio.sleep(start_lat)
+                    return await coro
+                return self._real.create_task(_late(), **kw)
 
         class _AsyncioProxy:
             def __getattr__(self, name: str) -> Any:
                 return getattr(real_asyncio, name)
 
             @staticmethod
+            def get_event_loop() -> Any:
+                lp = real_asyncio.get_event_loop()
+                if start_lat and sys._getframe(1).f_code.co_name == "run_scheduler_loop":
+                    return _LoopProxy(lp)
+                return lp
+
+            @staticmethod
             async def sleep(delay: float, result: Any = None) -> Any:
-                if sys._getframe(1).f_code.co_name == "run_scheduler_loop":
+                if over and sys._getframe(1).f_code.co_name == "run_scheduler_loop":
                     delay = max(0.0, delay) + over
                 return await real_asyncio.sleep(delay, result)
 
@@ -457,6 +486,8 @@ def oracle_c15(rec: Rec, info: Dict[str, Any], spec: Dict[str, Any]) -> "tuple[L
         if sid in items and len(pre[sid]) != len(ks_):
             v.append(Violation("kick-count", f"{sid}: {len(pre[sid])} pre_send calls on its source but {len(ks_)} kicks"))
             break
+    # (send tasks get to run `task_start_lat` after the loop created them: an allowance of the harness's own making)
+    SL = int(round(float(spec.get("task_start_lat") or 0.0) * 1_000_000))
     # ---- (2) cron schedules
     for sid, (si, it) in items.items():
         if "cron" not in it:
@@ -464,7 +495,7 @@ def oracle_c15(rec: Rec, info: Dict[str, Any], spec: Dict[str, Any]) -> "tuple[L
         sends_by_round: Counter = Counter()
         for e in pre[sid]:
             # attribute to the poll round whose completion instant equals this instant
-            rnd = [n for n, t in round_done.items() if t == e["us"]]
+            rnd = [n for n, t in round_done.items() if t + SL == e["us"]]
             if not rnd:
                 v.append(Violation("cron-send-unattributable", f"{sid}: send at +{(e['us'] - start) / 1e6}s matches no poll round"))
                 continue
@@ -474,7 +505,7 @@ def oracle_c15(rec: Rec, info: Dict[str, Any], spec: Dict[str, Any]) -> "tuple[L
             if n not in round_done:
                 continue
             t_eval = round_done[n]
-            if t_eval > end_us - 1000:
+            if t_eval + SL > end_us - 1000:
                 continue
             off = it["offset"]
             loc, skip = S.local_for(t_eval, off)
@@ -537,7 +568,7 @@ def oracle_c15(rec: Rec, info: Dict[str, Any], spec: Dict[str, Any]) -> "tuple[L
         k1 = ks[0]["us"]
         if k1 < T and T > fire:
             v.append(Violation("oneshot-early", f"{sid}: sent at +{(k1 - start) / 1e6}s before T=+{(T - start) / 1e6}s"))
-        if k1 > due + 1_000_000:
+        if k1 > due + 1_000_000 + SL:
             v.append(Violation("oneshot-late", f"{sid}: sent at +{(k1 - start) / 1e6}s, more than 1 s after max(T, first listing)=+{(due - start) / 1e6}s"))
         if len(ks) > 1:
             # mechanism classification (recorded finding F7): poll rounds do not de-duplicate, so a
@@ -560,7 +591,7 @@ def oracle_c15(rec: Rec, info: Dict[str, Any], spec: Dict[str, Any]) -> "tuple[L
                        default=10 ** 12)
             kind = "oneshot-sent-twice"
             if len(ks) == len(elig) and all(
-                max(T, te) <= k["us"] <= max(T, te) + 1_000_000 for k, te in zip(ks, elig)
+                max(T, te) <= k["us"] <= max(T, te) + 1_000_000 + SL for k, te in zip(ks, elig)
             ) and all(i_ < told for i_ in elig_i):
                 kind = "oneshot-resent-by-next-poll-before-removal"
             v.append(Violation(kind, f"{sid}: T=+{(T - start) / 1e6}s sent {len(ks)} times at +{[(k['us'] - start) / 1e6 for k in ks]}s; listing rounds evaluated at +{[(t - start) / 1e6 for t in elig]}s"))
